@@ -29,10 +29,11 @@ EXTENDS PartOutbox, Json, IOUtils
 Trace == ndJsonDeserialize(IOEnv.TRACE_FILE)
 
 VARIABLES l,        \* next line
-          svis,     \* stress: committed map as of the finished commits
+          ssnaps,   \* stress: the committed map after each begun commit (ssnaps[1] = initial)
+          svis,     \* stress: index into ssnaps of the last commit known to have finished
           srd,      \* stress: reader -> [win, ok]
           slost     \* stress: a lost lease was observed
-tvars == <<vars, l, svis, srd, slost>>
+tvars == <<vars, l, ssnaps, svis, srd, slost>>
 
 Ev == Trace[l]
 OpsOf(e) == [i \in 1..Len(e.ops) |-> [op |-> e.ops[i].op, part |-> e.ops[i].part, content |-> e.ops[i].content]]
@@ -46,7 +47,7 @@ Logged(st) == [i \in 1..Len(st.entries) |-> [id |-> st.entries[i].id, part |-> s
 StateMatches == /\ Proj(entries') = Logged(Ev.st)
                 /\ \A p \in Parts : inner'[p] = Ev.st.inner[p]
 
-SFrame == UNCHANGED <<svis, srd, slost>>
+SFrame == UNCHANGED <<ssnaps, svis, srd, slost>>
 
 TReset == /\ Ev.t = "reset"
           /\ entries' = <<>> /\ nextId' = 1
@@ -57,8 +58,12 @@ TReset == /\ Ev.t = "reset"
 
 TTx == /\ Ev.t = "tx" /\ Commit(OpsOf(Ev), Ev.ok) /\ StateMatches
 
+\* Ev.lease: what the driver measured about the oldest entry's claim_until against the clock while the claim ran:
+\* "valid" (certainly live: a silent expiry cannot explain a steal), "expired" (certainly over), otherwise unknown
 TClaim == /\ Ev.t = "claim"
-          /\ LET es == IF ClaimResult(entries) = Ev.res THEN entries ELSE ExpireAll(entries) IN
+          /\ LET es == IF Ev.lease = "expired" THEN ExpireAll(entries)
+                       ELSE IF Ev.lease = "valid" \/ ClaimResult(entries) = Ev.res THEN entries
+                       ELSE ExpireAll(entries) IN
              /\ ClaimResult(es) = Ev.res
              /\ ClaimOn(es, Ev.w)
           /\ Ev.res = "claimed" => (held'[Ev.w].id = Ev.id /\ held'[Ev.w].part = Ev.part /\ held'[Ev.w].op = Ev.op)
@@ -98,7 +103,7 @@ TNext == /\ l <= Len(Trace)
          /\ (TReset \/ TTx \/ TClaim \/ TRStart \/ TREnd \/ THb \/ TFin \/ TRel \/ TExpire \/ TCrash \/ TR1 \/ TR2 \/ TObs)
 
 TInit == /\ Init /\ l = 1
-         /\ svis = [p \in Parts |-> NoC] /\ srd = <<>> /\ slost = FALSE
+         /\ ssnaps = <<>> /\ svis = 1 /\ srd = <<>> /\ slost = FALSE
 
 \* property evaluation on every state of the validated behaviour (never stops the validation)
 Flag == IF IdleImpliesInnerExact /\ QuiescentReadsExact /\ rd.ok THEN TRUE
@@ -110,28 +115,35 @@ Readers == {"r1", "r2", "final"}
 NoSrd == [win |-> [p \in Parts |-> {}], ok |-> TRUE]
 WFrame == UNCHANGED <<entries, nextId, inner, pc, held, inc, rd, stale, cnt>>
 
+Snap0 == [cm |-> [p \in Parts |-> NoC], tv |-> [p \in Parts |-> {}]]
 SInit == /\ Init /\ l = 1
-         /\ svis = [p \in Parts |-> NoC] /\ srd = [r \in Readers |-> NoSrd] /\ slost = FALSE
+         /\ ssnaps = <<Snap0>> /\ svis = 1 /\ srd = [r \in Readers |-> NoSrd] /\ slost = FALSE
 
 SReset == /\ Ev.t = "sreset"
-          /\ committed' = [p \in Parts |-> NoC] /\ svis' = [p \in Parts |-> NoC]
+          /\ committed' = [p \in Parts |-> NoC] /\ ssnaps' = <<Snap0>> /\ svis' = 1
           /\ srd' = [r \in Readers |-> NoSrd] /\ slost' = FALSE
 
-SCBeg == /\ Ev.t = "cbeg"
+\* commit begin: logged at tx.sqlcommit while the SQLite writer lock is held => the k-th cbeg is the k-th commit;
+\* it becomes visible to readers at some point before its cend (tx.committed) is logged
+SCBeg == /\ Ev.t = "cbeg" /\ Ev.k = Len(ssnaps)
          /\ committed' = ApplyOps(committed, OpsOf(Ev))
+         /\ ssnaps' = Append(ssnaps, [cm |-> ApplyOps(committed, OpsOf(Ev)), tv |-> [p \in Parts |-> Touched(OpsOf(Ev), p)]])
          /\ srd' = [r \in Readers |-> [srd[r] EXCEPT !.win = [p \in Parts |-> srd[r].win[p] \cup Touched(OpsOf(Ev), p)]]]
          /\ UNCHANGED <<svis, slost>>
-SCEnd == Ev.t = "cend" /\ svis' = committed /\ UNCHANGED <<committed, srd, slost>>
+SCEnd == /\ Ev.t = "cend" /\ Ev.k < Len(ssnaps)
+         /\ svis' = IF Ev.k + 1 > svis THEN Ev.k + 1 ELSE svis
+         /\ UNCHANGED <<committed, ssnaps, srd, slost>>
+\* a read may see any state from the last commit known to be finished up to the last commit begun
 SRInv == /\ Ev.t = "rinv"
-         /\ srd' = [srd EXCEPT ![Ev.r] = [win |-> [p \in Parts |-> {svis[p], committed[p]}], ok |-> TRUE]]
-         /\ UNCHANGED <<committed, svis, slost>>
+         /\ srd' = [srd EXCEPT ![Ev.r] = [win |-> [p \in Parts |-> UNION {{ssnaps[i].cm[p]} \cup ssnaps[i].tv[p] : i \in svis..Len(ssnaps)}], ok |-> TRUE]]
+         /\ UNCHANGED <<committed, ssnaps, svis, slost>>
 SRRet == /\ Ev.t = "rret"
          /\ srd' = [srd EXCEPT ![Ev.r].ok =
                       ReadOK(IF Ev.kind = "ids" THEN "ids" ELSE "get", Ev.part,
                              IF Ev.kind = "ids" THEN [p \in Parts |-> Ev.ids[p]] ELSE [p \in Parts |-> Ev.val],
                              srd[Ev.r].win)]
-         /\ UNCHANGED <<committed, svis, slost>>
-SLost == Ev.t = "lost" /\ slost' = TRUE /\ UNCHANGED <<committed, svis, srd>>
+         /\ UNCHANGED <<committed, ssnaps, svis, slost>>
+SLost == Ev.t = "lost" /\ slost' = TRUE /\ UNCHANGED <<committed, ssnaps, svis, srd>>
 \* quiescent end: no entries left, both workers stopped; what the inner store and the reads show
 FinalOK(e) == /\ \A p \in Parts : e.inner[p] = committed[p]
               /\ \A i \in 1..Len(e.views) : \A p \in Parts :
@@ -139,7 +151,7 @@ FinalOK(e) == /\ \A p \in Parts : e.inner[p] = committed[p]
                     /\ (e.views[i].ids[p] = "in") = (committed[p] # NoC)
 SFinal == /\ Ev.t = "final" /\ Ev.pending = 0
           /\ srd' = [srd EXCEPT !["final"].ok = FinalOK(Ev)]
-          /\ UNCHANGED <<committed, svis, slost>>
+          /\ UNCHANGED <<committed, ssnaps, svis, slost>>
 
 SNext == /\ l <= Len(Trace)
          /\ l' = l + 1
